@@ -1712,6 +1712,9 @@ def call_method(x, st, recv: V, name: str, pos, kw, node, chain):
         if type(o).__name__ == "HSet":
             from . import absmodels
             return absmodels.set_method(x, st, recv, o, name, pos, node)
+        if type(o).__name__ == "HKinds":
+            from . import absmodels
+            return absmodels.kinds_method(x, st, recv, o, name, pos, node)
         return dict_method(x, st, recv, o, name, pos, kw, node)
     if k == "match":
         if name == "group":
